@@ -282,6 +282,10 @@ TRACE_OUTCOMES = {
     'identity-mismatch': lambda: text_reply(ok(7)),
     'base-exception': lambda: exc_reply('Cancel'),
     # what an attempt cancelled in mid-await (task.cancel(), wait_for timeout) ends in, and Ctrl-C
+    # bodies whose refusal is raised `from` a lower-level exception (KeyError for a missing member): tracers get the
+    # exception the caller gets, not its cause
+    'missing-member': lambda: text_reply({'id': 1, 'result': 1}),
+    'error-without-code': lambda: text_reply({'jsonrpc': '2.0', 'id': 1, 'error': {'message': 'm'}}),
     'cancelled': lambda: exc_reply('CancelledError'),
     'keyboard-interrupt': lambda: exc_reply('KeyboardInterrupt'),
 }
@@ -381,7 +385,8 @@ def _proj_one(prop, c, o):
     if prop == 'C09':
         return {'sends': o['sends'], 'sleeps': o['sleeps'], 'final': _kind(o['final']), 'value': o['value']}
     if prop == 'C19':
-        return {'trace': o['trace'], 'raised': (o['final'] or {}).get('raised')}
+        return {'trace': o['trace'], 'raised': (o['final'] or {}).get('raised'),
+                'trace_dunder': o['trace_dunder'] if o.get('trace_dunder') is not None else o['trace']}
     if prop == 'C11':
         return {k: o.get(k) for k in ('wire', 'sends', 'sleeps', 'final', 'value', 'related', 'trace')} | {'value_call': o.get('value_call', o['value'])}
     return None
@@ -534,6 +539,15 @@ def _oracle_half(prop, c, o, half):
                 rel = o['related']
                 if rel is not None and [r for r in rel if r is not None] != want_ids:
                     fail('not-related', 'accepted responses are not linked to the requests with the same id')
+    if prop == 'C08' and c.get('tag') == 'relate' and req['kind'] == 'batch' and 'resp' in final and o.get('related') is not None \
+            and final['resp'] and final['resp'].get('batch') and final['resp']['batch'].get('error') is None:
+        # every accepted response is linked to the request with the SAME id (strict or not); one nobody asked for is linked to none
+        call_ids = [r['id'] for r in req['reqs'] if r['id'] is not None]
+        for resp, rel in zip(final['resp']['batch']['responses'], o['related']):
+            want = resp['id'] if (resp['id'] is not None and resp['id'] in call_ids) else None
+            if rel != want:
+                fail('related-by-id', f'a response with id {resp["id"]} is linked to the request with id {rel}', want)
+                break
     if prop == 'C08' and c.get('tag') == 'relate' and 'value_call' in o and o['value_call'] != o['value']:
         fail('call-notation-value', 'call() / batch.call() (on a batch object possibly grown between two sends) does not hand the caller what '
                                     'send() + reading the results by position gives', o['value'])
@@ -593,6 +607,9 @@ def _oracle_half(prop, c, o, half):
         if o['raised_attempt'] != int(o['sends']) - 1:
             fail('stale-exception-object', f'the caller received the exception raised by attempt {o["raised_attempt"]}, '
                                            f'the last attempt was number {int(o["sends"]) - 1}')
+    if prop == 'C19' and o.get('trace_dunder') is not None and o['trace_dunder'] != o['trace']:
+        fail('trace-call-operator', 'client(method, ...) with a caller-supplied trace context is not traced like client.send(...) '
+                                    '(same events, same context)', o['trace'])
     if prop == 'C19' and c.get('tag') in ('trace', 'retry'):
         ntr = int(c['client']['tracers'])
         ev = o['trace']
